@@ -54,6 +54,10 @@ func c19Ctors() (direct, factories []c19Ctor) {
 var c19EdgeSizes = []int{0, 0, 1, 2, 31, 32, 33, 63, 64, 65, 127, 128, 129, 135, 136, 137, 191, 192, 193, 255, 256, 257, 271, 272, 273, 299, 300, 511, 512, 599, 600}
 
 func c19Size(rng *gen.Rng, max int) int {
+	if rng.IntN(40) == 0 {
+		// occasionally far beyond the usual range: implementations may process long inputs in pieces
+		return gen.Pick(rng, []int{1023, 1024, 1025, 1500, 2047, 2048, 2049, 3000, 4095, 4096, 4097, 5000})
+	}
 	if rng.IntN(5) < 2 {
 		for {
 			v := gen.Pick(rng, c19EdgeSizes)
@@ -720,7 +724,7 @@ func c19Kat(r *mon.R, c c19Ctor, n int, evals *atomic.Int64) {
 }
 
 func c19(r *mon.R) {
-	r.SetRule("(A) XOF: for blake2xb/blake2xs/keccak New and the 9 suite XOF factories, random programs (<=30 steps, sizes 0..600 biased to block/rate/key boundaries, seed lengths 0..300 each used at least once per direct constructor) of Write/Read/XORKeyStream(4 buffer layouts)/Reseed/Clone/Reset over <=4 live objects, plus proof/hash.go-shaped programs (Reseed;Write(msg);element-sized reads). Every output is compared with a single-shot reference (fresh primitive, one Write, one Read); a twin machine runs the same logical program with different Write/Read/XOR chunking and must agree; after every state-changing op the touched objects (and in half of the programs all other objects) are compared with their model through a Clone; 1/4 of the programs use no observers. Write after Read must panic until Reseed. Reset only on factory-made objects. non-trivial = at least one output byte compared. (B) random.Bits for bit lengths 0..1030 x exact, random.Int for moduli of 1..521 bits (2^(b-1), 2^(b-1)+1, 2^b-1, random, M=1,2,3) on recorded random and scripted streams (draw==M, draw==M-1, all-ones, garbage above the top bit): result < M and equal to the first masked draw < M of the recorded stream; non-trivial = at least one candidate was rejected or surplus top bits had to be masked. (C) random.New with 1..4 scripted readers (full, chunked, short, failing, failing later, recovering, misaligned): same consumed bytes re-chunked => same output; one flipped consumed bit of any reader => different output of exactly that call; no panic when a reader delivered its 32 bytes, panic when all delivered nothing; known answer blake2xb(sha256(consumed bytes)). distinct = (call site, program/case index, step)")
+	r.SetRule("(A) XOF: for blake2xb/blake2xs/keccak New and the 9 suite XOF factories, random programs (<=30 steps, sizes 0..600 biased to block/rate/key boundaries and 1 in 40 of 1023..5000, seed lengths 0..300 each used at least once per direct constructor) of Write/Read/XORKeyStream(4 buffer layouts)/Reseed/Clone/Reset over <=4 live objects, plus proof/hash.go-shaped programs (Reseed;Write(msg);element-sized reads). Every output is compared with a single-shot reference (fresh primitive, one Write, one Read); a twin machine runs the same logical program with different Write/Read/XOR chunking and must agree; after every state-changing op the touched objects (and in half of the programs all other objects) are compared with their model through a Clone; 1/4 of the programs use no observers. Write after Read must panic until Reseed. Reset only on factory-made objects. non-trivial = at least one output byte compared. (B) random.Bits for bit lengths 0..1030 x exact, random.Int for moduli of 1..521 bits (2^(b-1), 2^(b-1)+1, 2^b-1, random, M=1,2,3) on recorded random and scripted streams (draw==M, draw==M-1, all-ones, garbage above the top bit): result < M and equal to the first masked draw < M of the recorded stream; non-trivial = at least one candidate was rejected or surplus top bits had to be masked. (C) random.New with 1..4 scripted readers (full, chunked, short, failing, failing later, recovering, misaligned): same consumed bytes re-chunked => same output; one flipped consumed bit of any reader => different output of exactly that call; no panic when a reader delivered its 32 bytes, panic when all delivered nothing; known answer blake2xb(sha256(consumed bytes)). distinct = (call site, program/case index, step)")
 	r.Assume("x/crypto blake2b.NewXOF / blake2s.NewXOF and std crypto/sha3 SHAKE256, used single-shot (one Write, one Read), are the reference primitives; kyber's XOFs are wrappers around the same primitives used incrementally")
 	r.Assume("Reseed is modelled as: next 128 output bytes become the seed of a fresh XOF of the same implementation (mechanism stated by the property anchors)")
 	r.Assume("math/big is the reference for integer comparisons; crypto/sha256 for the reader-mixing known answer")
